@@ -218,9 +218,9 @@ def tlc(module, cfg, workers=None, env=None, timeout=1800, dfs=False, xmx="8g", 
         r.violated = m2.group(1)
     if "Temporal properties were violated" in r.out:
         r.violated = r.violated or "temporal"
-    if re.search(r"Error: The postcondition|Postcondition .* violated|Error: Evaluating postcondition", r.out) or \
-            ("postcondition" in r.out.lower() and "violated" in r.out.lower()):
+    if re.search(r"Error: Postcondition .* is false", r.out):
         r.violated = r.violated or "postcondition"
+        r.ok = False
     if not r.ok and not r.violated:
         m = re.search(r"Error: (.*)", r.out)
         r.error = (m.group(1) if m else "TLC did not finish") + "\n" + r.out[-3000:]
